@@ -3,7 +3,6 @@ package c01
 
 import (
 	"fmt"
-	"os"
 	"strings"
 	"time"
 
@@ -117,7 +116,7 @@ func Worker(shard, n int, tier string) *engine.Result {
 			break
 		}
 		desc := planNames(p, tmpl)
-		if only := os.Getenv("VERIF_ONLY"); only != "" && only != desc {
+		if engine.SkipScenario(desc) {
 			continue
 		}
 		h, ref, _ := f.RunReference(p, tmpl)
